@@ -6,7 +6,7 @@ package main
 //
 //	op:     reflect <HEX of FileDescriptorSet (generated files only)> <descriptor summary tokens…>
 //	result: nolink
-//	        | set=<ok SHAPE | err | panic | collide> cache=[ <splitName>:<Schema class>:<NewRoot class> … ]
+//	        | set=<ok SHAPE | err | panic> cache=[ <splitName>:<Schema class>:<NewRoot class> … ]
 //
 // ORACLE (the property as stated): SchemaSetFromFiles / SchemaCache.Schema / Reflector.NewRoot
 // return a value or an error — never panic, hang or overflow the stack; on success every
@@ -92,36 +92,18 @@ func execReflect(h *vh.H, op string) string {
 	}
 }
 
-// sigSuffix qualifies every signature of the op being executed (ops run one at a time).
-var sigSuffix string
-
-// fail records an oracle failure. In an op whose descriptors collide on a J5 schema name (Foo_Bar
-// vs Foo.Bar) every symptom is folded into a handful of signatures of that one class.
+// fail records an oracle failure; symptoms of one recorded root cause share a signature per
+// symptom kind.
 func fail(h *vh.H, sig, op, detail string) {
-	if sigSuffix != "" {
-		switch {
-		case strings.HasPrefix(sig, "panic:codec:"):
-			sig = "name-collision:panic:codec"
-		case strings.HasPrefix(sig, "panic:"):
-			sig = "name-collision:" + strings.Join(strings.SplitN(sig, ":", 3)[:2], ":")
-		case sig == "hang":
-			sig = "name-collision:hang"
-		default:
-			sig = "name-collision:inconsistent"
-		}
-		detail = "[colliding schema names] " + detail
-	} else {
-		// symptoms of one recorded root cause share a signature per symptom kind
-		kind := strings.SplitN(sig, ":", 2)[0] // panic | codec-error | kind-mismatch | …
-		switch {
-		case strings.Contains(sig, "google.protobuf.Struct"):
-			sig, detail = "struct-as-map:"+kind, "["+sig+"] "+detail
-		case strings.Contains(sig, "-google.protobuf.Duration:") && strings.HasPrefix(sig, "panic:codec:decode:"):
-			sig, detail = "duration-as-string:panic:decode", "["+sig+"] "+detail
-		case strings.HasPrefix(sig, "codec-error:encode:list-") && strings.HasSuffix(sig, ".Any"),
-			strings.HasPrefix(sig, "codec-error:encode:map-") && strings.HasSuffix(sig, ".Any"):
-			sig, detail = "any-in-collection:codec-error:encode", "["+sig+"] "+detail
-		}
+	kind := strings.SplitN(sig, ":", 2)[0] // panic | codec-error | kind-mismatch | …
+	switch {
+	case strings.Contains(sig, "google.protobuf.Struct"):
+		sig, detail = "struct-as-map:"+kind, "["+sig+"] "+detail
+	case strings.Contains(sig, "-google.protobuf.Duration:") && strings.HasPrefix(sig, "panic:codec:decode:"):
+		sig, detail = "duration-as-string:panic:decode", "["+sig+"] "+detail
+	case strings.HasPrefix(sig, "codec-error:encode:list-") && strings.HasSuffix(sig, ".Any"),
+		strings.HasPrefix(sig, "codec-error:encode:map-") && strings.HasSuffix(sig, ".Any"):
+		sig, detail = "any-in-collection:codec-error:encode", "["+sig+"] "+detail
 	}
 	h.Fail(sig, op, detail)
 }
@@ -221,11 +203,9 @@ func reflectOnce(h *vh.H, op string, fds *descriptorpb.FileDescriptorSet) string
 	}
 	include := func(fd protoreflect.FileDescriptor) bool { return own[fd.Path()] }
 	idx, collide := buildIndex(gen)
-	sigSuffix = ""
 	if collide {
-		// two descriptors map to one J5 schema name (Foo_Bar vs Foo.Bar): a class of its own
+		// two descriptors map to one J5 schema name (Foo_Bar vs Foo.Bar): an error since af1da62
 		h.Count("reflect.name-collision")
-		sigSuffix = "@name-collision"
 	}
 
 	// ---- 1. SchemaSetFromFiles
@@ -246,11 +226,6 @@ func reflectOnce(h *vh.H, op string, fds *descriptorpb.FileDescriptorSet) string
 		h.Nontrivial(op)
 		setRes = "ok " + shapeSet(ss)
 		checkSet(h, op, "set", ss.Packages, idx)
-	}
-	if collide {
-		// which of two equally named descriptors wins depends on RangeFiles order: compare classes only
-		_ = setRes
-		setRes = "collide"
 	}
 
 	// ---- 2. SchemaCache + Reflector + codec, per message
@@ -684,8 +659,49 @@ func checkCodec(h *vh.H, op string, codec *j5codec.Codec, md protoreflect.Messag
 	return good
 }
 
+// knownBadField: a field whose own per-field run already carries a recorded finding
+// (google.protobuf.Struct, google.protobuf.Duration, a list / map of Any).
+func knownBadField(fd protoreflect.FieldDescriptor) bool {
+	el := fd
+	if fd.IsMap() {
+		el = fd.MapValue()
+	}
+	switch fieldClass(el) {
+	case "google.protobuf.Struct", "google.protobuf.Duration":
+		return true
+	case "google.protobuf.Any", "j5.types.any.v1.Any":
+		return fd.IsList() || fd.IsMap()
+	}
+	return false
+}
+
+// reachesKnownBad: the message populated `depth` levels deep contains such a field.
+func reachesKnownBad(md protoreflect.MessageDescriptor, depth int) bool {
+	fs := md.Fields()
+	for i := 0; i < fs.Len(); i++ {
+		fd := fs.Get(i)
+		if knownBadField(fd) {
+			return true
+		}
+		el := fd
+		if fd.IsMap() {
+			el = fd.MapValue()
+		}
+		if depth > 0 && fieldClass(el) == "message" && reachesKnownBad(el.Message(), depth-1) {
+			return true
+		}
+	}
+	return false
+}
+
 // checkCodecAll: every field populated (nested messages one level deep).
 func checkCodecAll(h *vh.H, op string, codec *j5codec.Codec, md protoreflect.MessageDescriptor) {
+	if reachesKnownBad(md, 2) {
+		// the combined case would only repeat a recorded per-field finding under a broad signature
+		// (nested, the error surfaces; at the top level an exposed oneof swallows it in IsSet)
+		h.Count("reflect.codec.all-skipped-known-class")
+		return
+	}
 	name := string(md.FullName())
 	fields := md.Fields()
 	wrapper := j5schema.IsOneofWrapper(md)
